@@ -65,11 +65,12 @@ theorem realloc_zero_fail (us : Nat → Nat → Nat) (gsp : Nat → Nat → Nat)
   unfold _mi_heap_realloc_zero
   simp only [if_neg hc, hnew, ne_eq, not_true_eq_false, if_false]
 
-/-- what is written into the new block before the copy (zeroing of the tail / the terminator of a 0-sized block) -/
+/-- what is written into the new block before the copy (zeroing of everything beyond the copied bytes up to the usable size of
+    the new block / the terminator of a 0-sized block) -/
 def reallocInit (us : Nat → Nat → Nat) (p newsize zero_ newp : Nat) : List (String × List Nat) :=
-  if zero_ ≠ 0 ∧ newsize > us p 0 then
-    [("_mi_memzero", [(newp + (if us p 0 ≥ 8 then (us p 0 + 18446744073709551616 - 8) % 18446744073709551616 else 0)) % 18446744073709551616,
-        (newsize + 18446744073709551616 - (if us p 0 ≥ 8 then (us p 0 + 18446744073709551616 - 8) % 18446744073709551616 else 0)) % 18446744073709551616])]
+  if zero_ ≠ 0 then
+    [("_mi_memzero", [(newp + (if min (us p 0) newsize ≥ 8 then (min (us p 0) newsize + 18446744073709551616 - 8) % 18446744073709551616 else 0)) % 18446744073709551616,
+        (us newp 0 + 18446744073709551616 - (if min (us p 0) newsize ≥ 8 then (min (us p 0) newsize + 18446744073709551616 - 8) % 18446744073709551616 else 0)) % 18446744073709551616])]
   else if newsize = 0 then [("store8", [(newp + 0 * 1) % 18446744073709551616, 0])] else []
 
 theorem reallocInit_no_free (us : Nat → Nat → Nat) (p newsize zero_ newp : Nat) :
@@ -94,7 +95,7 @@ theorem realloc_zero_moved (us : Nat → Nat → Nat) (gsp : Nat → Nat → Nat
   unfold _mi_heap_realloc_zero reallocInit
   simp only [if_neg hc, if_pos hnew, hmin]
   congr 1
-  by_cases hp : p = 0 <;> by_cases hz : (zero_ ≠ 0 ∧ newsize > us p 0) <;> by_cases hn : newsize = 0 <;>
-    simp [hp, hz, hn]
+  by_cases hp : p = 0 <;> by_cases hz : zero_ = 0 <;> by_cases hn : newsize = 0 <;>
+    simp [hp, hz, hn, mi_usable_size]
 
 end C06L
